@@ -307,4 +307,17 @@ def getUnitsOld (regex : Str) : Option (List Str) :=
       | none => none
       | some k => some (splitBar (unescapeOld (tail.take (tail.length - 1 - k))) [])
 
+/-! ## The UI route: `UnitOperationDefinitionBase.build_commands` (uod.py) -/
+
+/-- `desc.argument_valid_units` of a command whose argument parser is the pattern `regex`.  `tagUnits` are the
+    compatible unit names of the tag of the process-value reading the command is paired with (`[]`: not paired, or
+    a tag without unit): they are used only when the pattern has no `number_unit` group. -/
+def publishedUnits (tagUnits : List Str) (regex : Str) : Option (List Str) :=
+  if (namedGroups regex).contains nameUnit then getUnits regex else some tagUnits
+
+/-- `reading.valid_value_units` of the paired reading after `build_commands`: the pattern's units are written
+    back; without a `number_unit` group the reading keeps `dflt` (what `match_with_tags` computed; `none` = None). -/
+def readingUnits (dflt : Option (List Str)) (regex : Str) : Option (Option (List Str)) :=
+  if (namedGroups regex).contains nameUnit then (getUnits regex).map some else some dflt
+
 end OPM.ArgRegex
